@@ -1,2 +1,277 @@
-(* Proofs about the model of the nibble trie (Model/IpFilter.v). *)
-From V Require Import Model.IpFilter.
+(* C31, part 4: the node array built by fill_node represents its prefix list
+   (layout: children of a node are contiguous, indexed by popcount), create and
+   lookup, IpFilter::new / is_in against naive containment, and IpSubnet::from_str. *)
+From V Require Import Model.IpFilter Gen.ConstIpFilter.
+From V Require Import Proofs.IpFilterArith Proofs.IpFilterPrefix Proofs.IpFilterNode.
+From Coq Require Import ZifyBool Sorting.Sorted Permutation.
+
+Arguments top_nibble : simpl never.
+Arguments shl : simpl never.
+Arguments wrap : simpl never.
+
+(* ---- arrays ---- *)
+Lemma set_nth_length : forall (A : Type) n (x : A) l, (n < length l)%nat -> length (set_nth n x l) = length l.
+Proof.
+  induction n; intros x l H; destruct l; simpl in H; try lia. reflexivity.
+  change (set_nth (S n) x (a :: l)) with (a :: set_nth n x l). simpl. f_equal. apply IHn. lia.
+Qed.
+
+Lemma set_nth_same : forall (A : Type) n (x : A) l, (n < length l)%nat -> nth_error (set_nth n x l) n = Some x.
+Proof.
+  induction n; intros x l H; destruct l; simpl in H; try lia. reflexivity.
+  change (set_nth (S n) x (a :: l)) with (a :: set_nth n x l). simpl. apply IHn. lia.
+Qed.
+
+Lemma set_nth_other : forall (A : Type) n (x : A) l p, (n < length l)%nat -> p <> n ->
+  nth_error (set_nth n x l) p = nth_error l p.
+Proof.
+  induction n; intros x l p H Hp; destruct l; simpl in H; try lia.
+  - destruct p. lia. reflexivity.
+  - change (set_nth (S n) x (a :: l)) with (a :: set_nth n x l). destruct p. reflexivity. simpl. apply IHn; lia.
+Qed.
+
+Lemma nth_error_repeat : forall (A : Type) (x : A) n p, (p < n)%nat -> nth_error (repeat x n) p = Some x.
+Proof. induction n; intros. lia. destruct p; simpl. reflexivity. apply IHn. lia. Qed.
+
+Lemma filter_map_comm : forall (A B : Type) (f : B -> bool) (g : A -> B) l,
+  filter f (map g l) = map g (filter (fun x => f (g x)) l).
+Proof. induction l; simpl. reflexivity. destruct (f (g a)); simpl; rewrite IHl; reflexivity. Qed.
+
+Lemma filter_ext_in : forall (A : Type) (f g : A -> bool) l, (forall x, In x l -> f x = g x) -> filter f l = filter g l.
+Proof. induction l; simpl; intros. reflexivity. rewrite H, IHl by auto. reflexivity. Qed.
+
+(* position of n among the selected elements of 0..m-1 *)
+Lemma nth_filter_zseq : forall (g : Z -> bool) (m : nat) n, 0 <= n < Z.of_nat m -> g n = true ->
+  nth_error (filter g (zseq m)) (length (filter g (zseq (Z.to_nat n)))) = Some n.
+Proof.
+  induction m; intros n Hn Hg. lia.
+  rewrite zseq_S, filter_app. destruct (Z.eq_dec n (Z.of_nat m)).
+  - subst n. rewrite Nat2Z.id. rewrite nth_error_app2 by lia. rewrite Nat.sub_diag. simpl. rewrite Hg. reflexivity.
+  - assert (H : nth_error (filter g (zseq m)) (length (filter g (zseq (Z.to_nat n)))) = Some n) by (apply IHm; auto; lia).
+    rewrite nth_error_app1. exact H. apply nth_error_Some. congruence.
+Qed.
+
+(* ---- the subtree below a node, stable under changes elsewhere ---- *)
+Definition Subtree (f : nat) (nodes : list node) (idx lo hi : nat) (data : list entry) : Prop :=
+  (hi <= length nodes)%nat /\
+  forall nodes2, (forall p, p = idx \/ (lo <= p < hi)%nat -> nth_error nodes2 p = nth_error nodes p) ->
+  forall a, in128 a -> lookup_from f nodes2 (Z.of_nat idx) a = Ok (existsb (econtains a) data).
+
+Lemma Subtree_stable : forall f nodes nodes1 idx lo hi data,
+  Subtree f nodes idx lo hi data -> (hi <= length nodes1)%nat ->
+  (forall p, p = idx \/ (lo <= p < hi)%nat -> nth_error nodes1 p = nth_error nodes p) ->
+  Subtree f nodes1 idx lo hi data.
+Proof.
+  intros f nodes nodes1 idx lo hi data [Hh Hs] Hl Hag. split. exact Hl.
+  intros nodes2 H2 a Ha. apply Hs; auto. intros p Hp. rewrite H2 by exact Hp. apply Hag. exact Hp.
+Qed.
+
+(* what fill_node (or the recursive call inside fill_children) guarantees *)
+Definition fill_ok (f : nat) (rec : list node -> list entry -> nat -> res (list node))
+    (nodes : list node) (data : list entry) (idx : nat) : Prop :=
+  exists nodes', rec nodes data idx = Ok nodes' /\
+    (length nodes <= length nodes')%nat /\
+    (length nodes' <= length nodes + f * length data)%nat /\
+    (forall p, (p < length nodes)%nat -> p <> idx -> nth_error nodes' p = nth_error nodes p) /\
+    Subtree f nodes' idx (length nodes) (length nodes') data.
+
+Definition fill_pre (nodes : list node) (idx : nat) : Prop :=
+  (idx < length nodes)%nat /\ nth_error nodes idx = Some default_node.
+
+Definition seglen (l : list (Z * list entry)) : nat := fold_right (fun p acc => length (snd p) + acc)%nat O l.
+
+Definition unknown_of (known : Z) (isegs : list (Z * list entry)) : list (Z * list entry) :=
+  filter (fun p => negb (bit16 known (fst p))) isegs.
+
+Lemma children_spec : forall f rec known isegs nodes child,
+  (forall i seg, In (i, seg) (unknown_of known isegs) -> forall nodes idx, fill_pre nodes idx ->
+     Z.of_nat (length nodes) + Z.of_nat f * Z.of_nat (length seg) < 2 ^ 32 ->
+     fill_ok f rec nodes (map shift_entry seg) idx) ->
+  (child + length (unknown_of known isegs) <= length nodes)%nat ->
+  (forall p, (child <= p < child + length (unknown_of known isegs))%nat -> nth_error nodes p = Some default_node) ->
+  Z.of_nat (length nodes) + Z.of_nat f * Z.of_nat (seglen (unknown_of known isegs)) < 2 ^ 32 ->
+  exists nodes', fill_children rec known isegs nodes child = Ok nodes' /\
+    (length nodes <= length nodes')%nat /\
+    (length nodes' <= length nodes + f * seglen (unknown_of known isegs))%nat /\
+    (forall p, (p < length nodes)%nat -> ~ (child <= p < child + length (unknown_of known isegs))%nat ->
+       nth_error nodes' p = nth_error nodes p) /\
+    (forall m i seg, nth_error (unknown_of known isegs) m = Some (i, seg) ->
+       exists lo hi, (length nodes <= lo)%nat /\ (hi <= length nodes')%nat /\
+         Subtree f nodes' (child + m) lo hi (map shift_entry seg)).
+Proof.
+  intros f rec known. induction isegs as [| [i seg] rest IH]; intros nodes child Hrec Hroom Hdef Hsize.
+  - simpl. exists nodes. split. reflexivity. split. lia. split. simpl. lia. split. auto.
+    intros m i seg H. destruct m; discriminate.
+  - unfold unknown_of in *. cbn [fill_children filter fst] in *. destruct (bit16 known i) eqn:B; cbn [negb] in *.
+    + apply IH; auto.
+    + cbn [length seglen fold_right snd] in *. fold (seglen (filter (fun p => negb (bit16 known (fst p))) rest)) in *.
+      set (us := filter (fun p => negb (bit16 known (fst p))) rest) in *.
+      destruct (Hrec i seg (or_introl eq_refl) nodes child) as (nodes1 & E1 & L1 & L1' & U1 & S1).
+      { split. lia. apply Hdef. lia. }
+      { nia. }
+      rewrite E1. cbn [res_bind]. rewrite map_length in L1'.
+      destruct (IH nodes1 (S child)) as (nodes' & E2 & L2 & L2' & U2 & S2).
+      { intros i' seg' Hin. apply (Hrec i' seg'). right. exact Hin. }
+      { lia. }
+      { intros p Hp. rewrite U1 by lia. apply Hdef. lia. }
+      { nia. }
+      exists nodes'. split. exact E2. split. lia. split. nia. split.
+      * intros p Hp Hn. rewrite U2 by lia. apply U1; lia.
+      * intros m i' seg' Hm. destruct m.
+        -- simpl in Hm. inversion Hm; subst i' seg'. exists (length nodes), (length nodes1).
+           split. lia. split. lia. rewrite Nat.add_0_r. eapply Subtree_stable. exact S1. lia.
+           intros p Hp. apply U2; lia.
+        -- simpl in Hm. destruct (S2 m i' seg' Hm) as (lo & hi & Hlo & Hhi & Hs).
+           exists lo, hi. split. lia. split. lia. replace (child + S m)%nat with (S child + m)%nat by lia. exact Hs.
+Qed.
+
+(* ---- bookkeeping of segment sizes (for the u32 child offsets) ---- *)
+Lemma seglen_cons_data : forall x r (l : list Z),
+  seglen (map (fun i => (i, seg_of (x :: r) i)) l) =
+  (seglen (map (fun i => (i, seg_of r i)) l) + length (filter (fun i => (key x =? i)%Z) l))%nat.
+Proof.
+  induction l as [| i l IH]. reflexivity.
+  cbn [map seglen fold_right snd filter]. fold (seglen (map (fun i => (i, seg_of (x :: r) i)) l)).
+  fold (seglen (map (fun i => (i, seg_of r i)) l)). rewrite IH.
+  unfold seg_of at 1. cbn [filter]. fold (seg_of r i). destruct (key x =? i); cbn [length]; lia.
+Qed.
+
+Lemma one_hit : forall (m : nat) k, 0 <= k < Z.of_nat m -> length (filter (fun i => k =? i) (zseq m)) = 1%nat.
+Proof.
+  induction m; intros k Hk. lia.
+  rewrite zseq_S, filter_app, app_length. cbn [filter]. destruct (Z.eqb_spec k (Z.of_nat m)).
+  - rewrite filter_none. reflexivity. intros x Hx. apply in_zseq in Hx. lia.
+  - rewrite IHm by lia. reflexivity.
+Qed.
+
+Lemma seglen_isegs : forall data : list entry, (forall e, In e data -> in128 (fst e)) -> seglen (isegs_of data) = length data.
+Proof.
+  induction data as [| x r IH]; intros H.
+  - reflexivity.
+  - unfold isegs_of. rewrite seglen_cons_data. fold (isegs_of r). rewrite IH by (intros; apply H; right; assumption).
+    rewrite one_hit. cbn [length]. lia. apply (key_range x). apply H. left. reflexivity.
+Qed.
+
+Lemma seglen_filter : forall g l, (seglen (filter g l) <= seglen l)%nat.
+Proof. induction l; cbn [filter seglen fold_right]. lia. destruct (g a); cbn [seglen fold_right]; fold (seglen l); fold (seglen (filter g l)); lia. Qed.
+
+Lemma seglen_nonempty : forall l, (forall p, In p l -> snd p <> []) -> (length l <= seglen l)%nat.
+Proof.
+  induction l as [| p l IH]; intros H. cbn. lia.
+  cbn [seglen fold_right length]. fold (seglen l). specialize (IH (fun q Hq => H q (or_intror Hq))).
+  specialize (H p (or_introl eq_refl)). destruct (snd p). congruence. cbn [length]. lia.
+Qed.
+
+(* ---- the undecided segments of a node ---- *)
+Lemma unknown_of_spec : forall known data,
+  unknown_of known (isegs_of data) =
+  map (fun i => (i, seg_of data i)) (filter (fun i => negb (Z.testbit known i)) (zseq 16)).
+Proof.
+  intros. unfold unknown_of, isegs_of. rewrite filter_map_comm. f_equal. cbn [fst].
+  apply filter_ext_in. intros i Hi. apply in_zseq in Hi. rewrite bit16_testbit by lia. reflexivity.
+Qed.
+
+Lemma unknown_of_length : forall known data,
+  length (unknown_of known (isegs_of data)) = Z.to_nat (count_zeros16 known).
+Proof.
+  intros. rewrite unknown_of_spec, map_length, count_zeros16_spec, bcount_filter. lia.
+Qed.
+
+Lemma undecided_seg : forall data, (forall e, In e data -> wf_entry e) -> StronglySorted entry_le data ->
+  forall n, 0 <= n < 16 -> Z.testbit (node_known data) n = false ->
+  seg_of data n <> [] /\ forall e, In e (seg_of data n) -> 4 < snd e.
+Proof.
+  intros data Hwf Hs n Hn Hk.
+  assert (Ha : in128 (n * 2 ^ 124)) by (unfold in128; norm_pows; lia).
+  assert (Hna : top_nibble (n * 2 ^ 124) = n) by (rewrite top_nibble_div by exact Ha; apply Z.div_mul; norm_pows; lia).
+  split.
+  - rewrite known_bit, outs_bit, outs0_bit in Hk by (auto; lia). apply orb_false_iff in Hk. destruct Hk as [Hi Ho].
+    rewrite Hi in Ho. cbn [negb] in Ho. rewrite andb_true_r in Ho. intro E. rewrite E in Ho. discriminate.
+  - destruct (undecided data Hwf Hs (n * 2 ^ 124) Ha) as [Hall _]. rewrite Hna. exact Hk. rewrite Hna in Hall. exact Hall.
+Qed.
+
+(* ---- fill_node ---- *)
+Definition data_ok (f : nat) (data : list entry) : Prop :=
+  (forall e, In e data -> wf_entry e /\ snd e <= 4 * Z.of_nat f) /\ StronglySorted entry_le data.
+
+Lemma in128_shl4 : forall a, in128 (shl 128 a 4).
+Proof. intros. rewrite shl128_4. unfold in128. apply Z.mod_pos_bound. reflexivity. Qed.
+
+Lemma fill_node_step : forall f data nodes idx,
+  data_ok (S f) data -> fill_pre nodes idx ->
+  Z.of_nat (length nodes) + Z.of_nat (S f) * Z.of_nat (length data) < 2 ^ 32 ->
+  (forall d nodes idx, data_ok f d -> d <> [] -> (forall e, In e d -> 1 <= snd e) -> fill_pre nodes idx ->
+     Z.of_nat (length nodes) + Z.of_nat f * Z.of_nat (length d) < 2 ^ 32 ->
+     fill_ok f (fill_node f) nodes d idx) ->
+  fill_ok (S f) (fill_node (S f)) nodes data idx.
+Proof.
+  intros f data nodes idx [Hok Hsorted] [Hidx Hdef] Hsize Hchild.
+  assert (Hwf : forall e, In e data -> wf_entry e) by (intros e He; apply Hok; exact He).
+  assert (H128 : forall e, In e data -> in128 (fst e)) by (intros e He; apply Hwf; exact He).
+  unfold fill_ok. cbn [fill_node]. rewrite segments_spec by auto. cbn [res_bind].
+  rewrite combine_map_r. fold (isegs_of data). rewrite Hdef. cbn [inset outset default_node].
+  destruct (fold_left seg_step (isegs_of data) (0, 0)) as [ins outs0] eqn:EF.
+  assert (Eins : ins = node_ins data) by (unfold node_ins; rewrite EF; reflexivity).
+  assert (Eouts0 : outs0 = node_outs0 data) by (unfold node_outs0; rewrite EF; reflexivity).
+  subst ins outs0. fold (node_outs data). fold (node_known data). clear EF.
+  set (known := node_known data).
+  set (newnode := mk_node (wrap 32 (Z.of_nat (length nodes))) (node_ins data) (node_outs data)).
+  set (U := Z.to_nat (count_zeros16 known)).
+  set (nodes2 := set_nth idx newnode nodes ++ repeat default_node U).
+  set (us := unknown_of known (isegs_of data)).
+  assert (HU : length us = U) by apply unknown_of_length.
+  assert (Hus : forall i seg, In (i, seg) us -> 0 <= i < 16 /\ seg = seg_of data i /\ Z.testbit known i = false).
+  { intros i seg Hin. unfold us in Hin. rewrite unknown_of_spec in Hin. apply in_map_iff in Hin.
+    destruct Hin as (j & Ej & Hj). inversion Ej; subst. apply filter_In in Hj. destruct Hj as [Hj1 Hj2].
+    apply in_zseq in Hj1. split. lia. split. reflexivity. destruct (Z.testbit known i); auto; discriminate. }
+  assert (Hseglen : (seglen us <= length data)%nat).
+  { unfold us, unknown_of. rewrite <- (seglen_isegs data H128). apply seglen_filter. }
+  assert (HUle : (U <= seglen us)%nat).
+  { rewrite <- HU. apply seglen_nonempty. intros [i seg] Hp. cbn [snd]. destruct (Hus i seg Hp) as (Hi & -> & Hk).
+    apply (undecided_seg data Hwf Hsorted i Hi Hk). }
+  assert (Hlen2 : length nodes2 = (length nodes + U)%nat).
+  { unfold nodes2. rewrite app_length, set_nth_length, repeat_length by exact Hidx. reflexivity. }
+  destruct (children_spec f (fill_node f) known (isegs_of data) nodes2 (length nodes)) as (nodes' & E & L & L' & Un & Sub).
+  { intros i seg Hin nodes0 idx0 Hpre Hsz. destruct (Hus i seg Hin) as (Hi & -> & Hk).
+    destruct (undecided_seg data Hwf Hsorted i Hi Hk) as [Hne Hlong].
+    destruct (shifted_ok data Hwf Hsorted i Hlong) as (Swf & Ssorted & Slen).
+    apply Hchild; auto.
+    - split; auto. intros e He. split. apply Swf; exact He. destruct (Slen e He) as (e0 & He0 & ->).
+      apply in_seg_of in He0. destruct (Hok e0 (proj1 He0)). lia.
+    - destruct (seg_of data i). congruence. discriminate.
+    - intros e He. destruct (Slen e He) as (e0 & He0 & ->). specialize (Hlong e0 He0). lia.
+    - rewrite map_length. exact Hsz. }
+  { fold us. lia. }
+  { fold us. intros p Hp. unfold nodes2. rewrite nth_error_app2; rewrite set_nth_length by exact Hidx; [| lia].
+    apply nth_error_repeat. lia. }
+  { fold us. nia. }
+  fold us in L', Un, Sub. rewrite E.
+  exists nodes'. split. reflexivity.
+  assert (Hnode : nth_error nodes' idx = Some newnode).
+  { rewrite Un by lia. unfold nodes2. rewrite nth_error_app1 by (rewrite set_nth_length; lia).
+    apply set_nth_same. exact Hidx. }
+  split. lia. split. nia. split.
+  - intros p Hp Hne. rewrite Un by lia. unfold nodes2. rewrite nth_error_app1 by (rewrite set_nth_length; lia).
+    apply set_nth_other; auto.
+  - split. lia. intros nodes3 Hag a Ha.
+    pose proof (top_nibble_range a Ha) as Hn. set (n := top_nibble a) in *.
+    cbn [lookup_from]. rewrite Nat2Z.id. rewrite Hag by (left; reflexivity). rewrite Hnode.
+    cbn [inset outset child_offset newnode]. fold n. rewrite !lookup_bit by exact Hn.
+    destruct (Z.testbit (node_ins data) n) eqn:Bi.
+    { cbn [negb]. f_equal. symmetry. apply ins_sound; auto. }
+    destruct (Z.testbit (node_outs data) n) eqn:Bo.
+    { cbn [negb]. f_equal. symmetry. apply outs_sound; auto. }
+    cbn [negb].
+    assert (Hk : Z.testbit known n = false) by (unfold known; rewrite known_bit, Bi, Bo by exact Hn; reflexivity).
+    destruct (undecided data Hwf Hsorted a Ha Hk) as [_ Heq]. fold n in Heq. rewrite Heq.
+    fold (node_known data). fold known. rewrite rank_spec by exact Hn. rewrite bcount_filter.
+    set (m := length (filter (fun k => negb (Z.testbit known k)) (zseq (Z.to_nat n)))).
+    assert (Hm : nth_error us m = Some (n, seg_of data n)).
+    { unfold us. rewrite unknown_of_spec. apply map_nth_error. apply nth_filter_zseq. lia. rewrite Hk. reflexivity. }
+    assert (Hmlt : (m < U)%nat) by (rewrite <- HU; apply nth_error_Some; congruence).
+    destruct (Sub m n (seg_of data n) Hm) as (lo & hi & Hlo & Hhi & Hs).
+    assert (Enext : wrap 32 (wrap 32 (Z.of_nat (length nodes)) + Z.of_nat m) = Z.of_nat (length nodes + m)).
+    { unfold wrap. rewrite (Z.mod_small (Z.of_nat (length nodes))) by nia. rewrite Z.mod_small by nia. lia. }
+    rewrite Enext. destruct Hs as [_ Hs]. apply Hs. 2: apply in128_shl4.
+    intros p Hp. apply Hag. right. lia.
+Qed.
